@@ -16,6 +16,10 @@ use std::collections::BTreeSet;
 pub struct Case {
   pub build: BuildCase,
   pub seg_roots: Vec<u16>,
+  /// segment a graph of generated registry packages on which fast check has
+  /// run instead of the world's graph (clause (a) only)
+  #[serde(default)]
+  pub fc: Option<crate::props::c09::Case>,
 }
 
 pub fn spec() -> PropSpec<Case> {
@@ -30,8 +34,9 @@ pub fn spec() -> PropSpec<Case> {
       (
         build_case_strategy(p),
         proptest::collection::vec(any::<u16>(), 1..=3),
+        proptest::option::weighted(0.15, crate::props::c09::case_strategy(tier)),
       )
-        .prop_map(|(mut build, seg_roots)| {
+        .prop_map(|(mut build, seg_roots, fc)| {
           crate::world::break_redirect_cycles(&mut build.world);
           build.opts.is_dynamic = false;
           build.opts.skip_dynamic_deps = false;
@@ -40,13 +45,13 @@ pub fn spec() -> PropSpec<Case> {
             // code-only graphs
             build.imports.clear();
           }
-          Case { build, seg_roots }
+          Case { build, seg_roots, fc }
         })
         .boxed()
     },
     check,
     cases: |tier| tier.pick(100_000, 2_000_000),
-    rule: "generated worlds built under all three graph kinds and options; segment roots drawn among the modules of the graph (roots and non-roots); non-trivial = the segment is a proper subset of the original, has >= 2 modules and contains a redirect or a module with a type resolution; distinct = distinct case JSON",
+    rule: "generated worlds built under all three graph kinds and options (and, 15% of the cases, graphs of generated registry packages on which fast check has run - clause (a) only); segment roots drawn among the modules of the graph (roots and non-roots) and the specifiers that redirect to them; non-trivial = the segment is a proper subset of the original, has >= 2 modules and contains a redirect or a module with a type resolution; distinct = distinct case JSON",
     assumptions: &[
       "same-attribute proviso by construction; no redirect cycles (C14 owns those); is_dynamic and skip_dynamic_deps at their defaults; no configured imports for code-only graphs",
       "segment roots are never externals that stand for an asset import (a root carries no attribute)",
@@ -78,14 +83,31 @@ fn dep_view(
 pub fn check(case: &Case, _tier: Tier) -> Outcome {
   let mut o = Outcome::default();
   let b = &case.build;
-  let (orig, _) = build_simple(&b.world, &b.roots, &b.imports, &b.opts);
+  let orig = match &case.fc {
+    Some(fc) => {
+      o.label("graph-with-fast-check-modules");
+      crate::props::c09::prepare(fc, None).graph
+    }
+    None => build_simple(&b.world, &b.roots, &b.imports, &b.opts).0,
+  };
   // candidates: every module except externals that stand for an asset import
-  // (`type: "text"|"bytes"|"css"`): a root is requested without attribute
-  let modules: Vec<ModuleSpecifier> = orig
+  // (`type: "text"|"bytes"|"css"`): a root is requested without attribute;
+  // and every specifier that redirects to such a module
+  let mut modules: Vec<ModuleSpecifier> = orig
     .modules()
     .filter(|m| !m.external().map(|e| e.was_asset_load).unwrap_or(false))
     .map(|m| m.specifier().clone())
     .collect();
+  if case.fc.is_none() {
+    let sources: Vec<ModuleSpecifier> = orig
+      .redirects
+      .keys()
+      .filter(|s| !matches!(s.scheme(), "jsr" | "npm"))
+      .filter(|s| modules.contains(orig.resolve(s)))
+      .cloned()
+      .collect();
+    modules.extend(sources);
+  }
   if modules.is_empty() {
     return o;
   }
@@ -175,7 +197,10 @@ pub fn check(case: &Case, _tier: Tier) -> Outcome {
   // segment() documents a clone shortcut when *all* requested roots are roots
   // of the original; in every other case it is the closure of the given roots
   let shortcut = seg_roots.iter().all(|r| orig.roots.contains(r));
-  if !shortcut {
+  if seg_roots.iter().any(|r| orig.redirects.contains_key(r)) {
+    o.label("segment-root-is-a-redirect-source");
+  }
+  if !shortcut && case.fc.is_none() {
     let sr: Vec<String> = seg.roots.iter().map(|r| r.to_string()).collect();
     let er: Vec<String> = seg_roots.iter().map(|r| r.to_string()).collect();
     if sr != er {
